@@ -981,3 +981,109 @@ func isPanicBlock(b *ssa.BasicBlock) bool {
 	_, ok := b.Instrs[len(b.Instrs)-1].(*ssa.Panic)
 	return ok
 }
+
+// combine merges classifiers: every callback's events are merged.
+func combine(cls ...*Classifier) *Classifier {
+	out := &Classifier{}
+	out.Call = func(site ssa.Instruction, c *ssa.CallCommon) *Event {
+		var evs []*Event
+		for _, cl := range cls {
+			if cl != nil && cl.Call != nil {
+				evs = append(evs, cl.Call(site, c))
+			}
+		}
+		return mergeEvents(evs...)
+	}
+	out.Instr = func(in ssa.Instruction) *Event {
+		var evs []*Event
+		for _, cl := range cls {
+			if cl != nil && cl.Instr != nil {
+				evs = append(evs, cl.Instr(in))
+			}
+		}
+		return mergeEvents(evs...)
+	}
+	out.CallEdge = func(call ssa.Value, outcome string) *Event {
+		var evs []*Event
+		for _, cl := range cls {
+			if cl != nil && cl.CallEdge != nil {
+				evs = append(evs, cl.CallEdge(call, outcome))
+			}
+		}
+		return mergeEvents(evs...)
+	}
+	out.SelCase = func(sel *ssa.Select, k int) *Event {
+		var evs []*Event
+		for _, cl := range cls {
+			if cl != nil && cl.SelCase != nil {
+				evs = append(evs, cl.SelCase(sel, k))
+			}
+		}
+		return mergeEvents(evs...)
+	}
+	out.Cond = func(c Cond, b bool) *Event {
+		var evs []*Event
+		for _, cl := range cls {
+			if cl != nil && cl.Cond != nil {
+				evs = append(evs, cl.Cond(c, b))
+			}
+		}
+		return mergeEvents(evs...)
+	}
+	return out
+}
+
+// namedCalls labels calls by resolved callee: names maps a callee name (or base
+// name) to a label L; the call generates "call:L" and its tested result edges
+// generate "ok:L"/"fail:L" (error results) or "true:L"/"false:L" (bool results).
+func namedCalls(w *World, names map[string]string) *Classifier {
+	label := func(c *ssa.CallCommon) string {
+		n := w.calleeName(c)
+		if l, ok := names[n]; ok {
+			return l
+		}
+		if l, ok := names[baseName(n)]; ok {
+			return l
+		}
+		return ""
+	}
+	return &Classifier{
+		Call: func(site ssa.Instruction, c *ssa.CallCommon) *Event {
+			if l := label(c); l != "" {
+				return ev("call:" + l)
+			}
+			return nil
+		},
+		CallEdge: func(call ssa.Value, outcome string) *Event {
+			if c, ok := call.(*ssa.Call); ok {
+				if l := label(&c.Call); l != "" {
+					return ev(outcome + ":" + l)
+				}
+			}
+			return nil
+		},
+	}
+}
+
+// withSummaries wraps a classifier so that calls to closures of host (and, when
+// all is set, to any package function) replay the callee's summary.
+func flowWithSummaries(w *World, fn *ssa.Function, base *Classifier, all bool) *Flow {
+	fl := &Flow{w: w, fn: fn, sums: map[*ssa.Function]*Event{}, stack: map[*ssa.Function]bool{fn: true}}
+	cl := *base
+	inner := base.Call
+	cl.Call = func(site ssa.Instruction, c *ssa.CallCommon) *Event {
+		var e *Event
+		if inner != nil {
+			e = inner(site, c)
+		}
+		if callee := w.staticCallee(c); callee != nil && w.ours(callee) && len(callee.Blocks) > 0 {
+			if all || (callee.Parent() != nil && outermost(callee) == outermost(fn)) {
+				return mergeEvents(e, fl.Summary(callee))
+			}
+		}
+		return e
+	}
+	fl.cl = &cl
+	fl.run()
+	return fl
+}
